@@ -275,6 +275,7 @@ def monitor_env():
         "ElemFlat": lambda c: c.get("flat") if hasattr(c, "flat") else None,
         "LabelHintNodes": lambda e, s: view(e.xml_label_and_hint(survey=s)),
         "SectionInstance": lambda sec, s: view(type(sec).__mro__[[c.__name__ for c in type(sec).__mro__].index("Section")].xml_instance(sec, survey=s)),
+        "SplitExt": lambda p: __import__("os").path.splitext(p),
         "BuiltControl": lambda q, s: view(q.build_xml(survey=s)),
         "ChildControl": lambda c: view(c.xml_control(survey=survey_of(c))),
         "LabelNode": lambda e, s: view(e.xml_label(survey=s)),
@@ -319,6 +320,9 @@ MONITORED = [
     "pyxform.survey.Survey.xml_descendent_bindings",
     "pyxform.survey_element.SurveyElement.has_common_repeat_parent",
     "pyxform.survey.Survey._generate_static_instances",
+    "pyxform.survey.Survey._generate_external_instances",
+    "pyxform.survey.Survey._generate_from_file_instances",
+    "pyxform.survey.Survey._get_last_saved_instance",
     "pyxform.question.Question.xml_control",
     "pyxform.question.Question._validate_is_not_a_trigger",
     "pyxform.survey.Survey.get_trigger_values_for_question_name",
@@ -382,7 +386,8 @@ class Monitor:
             is_static = isinstance(real, staticmethod)
             fn = real.__func__ if is_static else real
             nc = native.NativeContract(c, self.reg, self.base)
-            setattr(cls, meth, self._wrap(fid, c, nc, fn))
+            w = self._wrap(fid, c, nc, fn)
+            setattr(cls, meth, staticmethod(w) if is_static else w)
             self.installed.append((cls, meth, real))
             self.stats[fid] = {"calls": 0, "evaluated": 0, "skipped_pre": 0, "raised": 0}
 
